@@ -25,7 +25,7 @@ func c19NumCases(env *core.Env) int {
 	if env.Thorough() {
 		return 1400
 	}
-	return 60
+	return 300
 }
 
 type c19Verdict struct {
